@@ -251,7 +251,53 @@ def gen_multistage():
     )
 
 
-N = {"quick": (4000, 5000, 6000, 800), "thorough": (40000, 50000, 60000, 6000)}
+def gen_pyfrag():
+    from ..gen import pyexpr as P
+
+    frag = st.one_of(
+        P.pyexpr(allow_braces=False, allow_backticks=True).map(lambda t: "{" + t[0] + "}"),
+        P.pyexpr(allow_braces=True, allow_backticks=True).map(lambda t: "f(" + t[0] + ")"),
+        P.pyexpr(allow_braces=True, allow_backticks=True).filter(lambda t: t[0][:1].isalpha() and t[0].endswith(")") and "(" in t[0]).map(lambda t: t[0]),
+    )
+    return st.builds(
+        lambda l, r, shape, c: {"s": {0: f"{l} ~ {r}", 1: f"{l} + a ~ b:{r}", 2: f"{l}", 3: f"a | {l} ~ {r} | b", 4: f"y ~ {l}:{r}"}[shape], "cfg": c},
+        frag, frag, st.integers(0, 4), config,
+    )
+
+
+def check_history(case) -> Outcome:
+    """A parser object whose feature flags are changed between parses must behave like a fresh parser with those flags."""
+    from formulaic.parser import DefaultFormulaParser
+    from formulaic.errors import FormulaParsingError
+
+    out = Outcome()
+    out.nontrivial = len(case["steps"]) >= 2
+    parser = DefaultFormulaParser(include_intercept=case["intercept"], feature_flags=set(case["steps"][0]["flags"]) or set())
+    for i, step in enumerate(case["steps"]):
+        if i:
+            parser.set_feature_flags(set(step["flags"]))
+        fresh = libio.parser_for({"intercept": case["intercept"], "flags": step["flags"]})
+        res = []
+        for p in (parser, fresh):
+            try:
+                res.append(("ok", repr(p.get_terms(step["s"]))))
+            except FormulaParsingError as e:
+                res.append(("reject", ""))
+            except SyntaxError:
+                res.append(("reject", ""))
+        if res[0] != res[1]:
+            out.fail("reconfigured-parser-differs-from-fresh", f"step {i} of {case['steps']}: reconfigured parser -> {res[0]}, fresh parser with flags {step['flags']} -> {res[1]}")
+            break
+    out.label("history")
+    return out
+
+
+def gen_history():
+    step = st.fixed_dictionaries({"flags": st.sampled_from(FLAGSETS), "s": st.sampled_from(["a ~ b", "a | b", "y ~ [a ~ b]", "a + b", "y ~ x | z", "[a ~ b]", "~ a"])})
+    return st.fixed_dictionaries({"intercept": st.booleans(), "steps": st.lists(step, min_size=2, max_size=5)})
+
+
+N = {"quick": (2500, 3500, 3500, 400, 800, 300), "thorough": (40000, 50000, 60000, 6000, 15000, 3000)}
 BUDGET_S = {"quick": 70, "thorough": 1500}
 THOROUGH_SHARDS = 16
 
@@ -263,4 +309,6 @@ def campaigns(tier, shard=0, nshards=1):
         Campaign("alphabet", gen_alpha(), check_string, n[1]),
         Campaign("mutated-grammar", gen_mutated(), check_string, n[2]),
         Campaign("multistage", gen_multistage(), check_string, n[3]),
+        Campaign("python-fragments", gen_pyfrag(), check_string, n[4]),
+        Campaign("flag-history", gen_history(), check_history, n[5]),
     ]
